@@ -96,6 +96,14 @@ def check_method(ctx, rule, fx, adt_suffix, method, reach, delegates=(), impl_se
     names = {method} | set(delegates)
     req = fields_required(fx, path, reach)
     n = 0
+    # the partial results must be combined by union: an intersection / difference drops members found in one part only
+    bad_ops = sorted({s_[1] for s_ in sym.subterms(v) if isinstance(s_, tuple) and s_[:1] == ("call",) and isinstance(s_[1], str) and
+                      s_[1].split("::")[-1] in ("bitand", "intersection", "difference", "symmetric_difference", "bitxor", "sub", "retain")} |
+                     {"operator " + s_[1] for s_ in sym.subterms(v) if isinstance(s_, tuple) and s_[:1] == ("bin",) and s_[1] in ("BitAnd", "BitXor", "Sub")} |
+                     {s_[2] for s_ in sym.subterms(v) if isinstance(s_, tuple) and s_[:1] == ("upd",) and len(s_) > 2 and str(s_[2]).split("@")[0] in ("retain", "shift_remove", "swap_remove", "remove", "clear")})
+    if method != "free_variables":
+        ctx.add(rule, "%s::%s:union" % (hq.last(path), method), not bad_ops, ctx.site(b),
+                "%s::%s combines the results of its parts by union only (found: %s)" % (hq.last(path), method, bad_ops or "extend / chain / collect"))
     if adt["is_enum"]:
         # find the match on self
         m = None
